@@ -18,10 +18,12 @@ use std::sync::{Arc, Mutex};
 use std::time::{Duration, Instant};
 
 pub const LEVEL: &str = "exploration";
-pub const RULE: &str = "case = scenario on a real connected client (Connector::connect over a socket pair and TLS) whose receive thread is the binary's launch_rdp_thread: 1..12 fast-path bitmap PDUs tagged with serial numbers; a packing of PDUs into TLS records (one per record, several per record, one PDU split over 2-3 records) and of records into socket writes (one write per record, all coalesced, 1..n-byte pieces) with seeded pauses (0 / 100 us / 5 ms); an end mode (disconnect-provider ultimatum, TLS close_notify then close, abrupt close, undecodable PDU then close, connection reset (RST, on the loopback-TCP transport), none) placed before any PDU, between PDUs or inside a PDU; 0..2 concurrent writer threads doing lock + try_write. Oracle: with the server silent and open every PDU already sent arrives on the bitmap channel in serial order within 5 s (a miss is confirmed by a 'poke' PDU: if the missing events then arrive the thread was waiting for further server traffic); after the end event the thread's JoinHandle is finished within 5 s and the shared client is released (a live thread is classified as spinning or blocked by process CPU time); everything sent before the end was forwarded in order. Scenarios may start with 1-2 bitmap PDUs in the TLS record of the font-map (decrypted before the receive thread exists: they must be delivered with the server silent) and may use PDUs larger than one TLS record (64x64 raw rectangles), also cut in half by the end event. The matrix section covers every end mode at every protocol point and every packing (one / several / split PDUs per record) on a plain-TLS and on a CredSSP (PROTOCOL_HYBRID) session, plus scenarios that start with 6 s (thorough: 2, 6, 11, 31, 61 s) of complete server silence; one generated scenario in three runs on a CredSSP session. Scenarios run one at a time. Non-trivial = packing other than one-PDU-per-record-per-write, or an end mode other than none; distinct by hash of the scenario.";
+pub const RULE: &str = "case = scenario on a real connected client (Connector::connect over a socket pair and TLS) whose receive thread is the binary's launch_rdp_thread: 1..12 fast-path bitmap PDUs tagged with serial numbers; a packing of PDUs into TLS records (one per record, several per record, one PDU split over 2-3 records) and of records into socket writes (one write per record, all coalesced, 1..n-byte pieces) with seeded pauses (0 / 100 us / 5 ms); an end mode (disconnect-provider ultimatum, TLS close_notify then close, abrupt close, undecodable PDU then close, connection reset (RST, on the loopback-TCP transport), none) placed before any PDU, between PDUs or inside a PDU; 0..2 concurrent writer threads doing lock + try_write. Oracle: with the server silent and open every PDU already sent arrives on the bitmap channel in serial order within 30 s (a miss is confirmed by a 'poke' PDU: if the missing events then arrive the thread was waiting for further server traffic); after the end event the thread's JoinHandle is finished within 30 s and the shared client is released (a live thread is classified as spinning or blocked by process CPU time); everything sent before the end was forwarded in order. Scenarios may start with 1-2 bitmap PDUs in the TLS record of the font-map (decrypted before the receive thread exists: they must be delivered with the server silent) and may use PDUs larger than one TLS record (64x64 raw rectangles), also cut in half by the end event. The matrix section covers every end mode at every protocol point and every packing (one / several / split PDUs per record) on a plain-TLS and on a CredSSP (PROTOCOL_HYBRID) session, plus scenarios that start with 6 s (thorough: 2, 6, 11, 31, 61 s) of complete server silence; one generated scenario in three runs on a CredSSP session. Scenarios run one at a time. Non-trivial = packing other than one-PDU-per-record-per-write, or an end mode other than none; distinct by hash of the scenario.";
 
-const T_DELIVER: Duration = Duration::from_secs(5);
-const T_STOP: Duration = Duration::from_secs(5);
+// generous: a loaded machine must not turn into a violation; waiting costs nothing when things work (the collectors return
+// as soon as everything has arrived), only failing scenarios take this long
+const T_DELIVER: Duration = Duration::from_secs(30);
+const T_STOP: Duration = Duration::from_secs(30);
 
 #[derive(Serialize, Deserialize, Hash, Clone, Copy, Debug, PartialEq, Eq)]
 pub enum RecordPacking {
@@ -512,7 +514,7 @@ pub fn run(c: &Case) -> Outcome {
             let _ = s.tls.write_all(&poke);
             d!("poked");
             let mut after: Vec<u16> = got.clone();
-            collect(&s.rx, &mut after, early + before_end + 1, Duration::from_secs(2));
+            collect(&s.rx, &mut after, early + before_end + 1, Duration::from_secs(10));
             let mut want_after = want.clone();
             want_after.push(9999);
             let confirmed = after == want_after;
@@ -533,11 +535,11 @@ pub fn run(c: &Case) -> Outcome {
     if !writers.is_empty() {
         let p0 = progress.load(Ordering::Relaxed);
         let t0 = Instant::now();
-        while progress.load(Ordering::Relaxed) == p0 && writers.iter().any(|w| !w.is_finished()) && t0.elapsed() < Duration::from_secs(2) {
+        while progress.load(Ordering::Relaxed) == p0 && writers.iter().any(|w| !w.is_finished()) && t0.elapsed() < Duration::from_secs(20) {
             std::thread::sleep(Duration::from_millis(2));
         }
         if progress.load(Ordering::Relaxed) == p0 && writers.iter().any(|w| !w.is_finished()) {
-            out.fail("writer-starved-while-waiting", format!("with the server silent for 2 s no concurrent lock + try_write completed ({} done so far): the receive thread keeps the shared client locked while it waits", p0));
+            out.fail("writer-starved-while-waiting", format!("with the server silent for 20 s no concurrent lock + try_write completed ({} done so far): the receive thread keeps the shared client locked while it waits", p0));
             finish(&mut s, &stop_writers, writers);
             return out;
         }
@@ -713,7 +715,7 @@ fn matrix(thorough: bool) -> Vec<Case> {
 
 pub fn check(rep: &Report) {
     tls::pki();
-    rep.assume("liveness is approximated by deadlines (5 s, normal latency < 20 ms); client-side interleavings are perturbed by injected delays and concurrent writers, not controlled");
+    rep.assume("liveness is approximated by deadlines (30 s for delivery and for stopping, 20 s for a concurrent writer; normal latency < 20 ms); client-side interleavings are perturbed by injected delays and concurrent writers, not controlled");
     rep.assume("scenarios run one at a time so that CPU accounting and deadlines are not disturbed by the check itself");
     rep.assume("transport: unix socket pair (select works on its descriptor exactly as on TCP) or, for a third of the scenarios, TCP over the loopback interface, where the end mode Reset closes the server socket with SO_LINGER 0 (RST)");
     rep.list("matrix", matrix(rep.tier == engine::Tier::Thorough), run);
